@@ -28,6 +28,13 @@ inductive SignErr where
   | invalid (e : InvErr) | unknownVersion | marshal | signer | normalize | emptySignature
   deriving DecidableEq, Repr
 
+/-- whole seconds of an instant given in nanoseconds (`time.Unix(t.Unix(), 0)`). -/
+def floorSec (t : Int) : Int := t / 1000000000 * 1000000000
+
+/-- `fromTBSCertificate` (both versions): copy the fields, keep whole-second validity bounds, set the issuer. -/
+def fromTBS (t : Cert) (issuer : String) : Cert :=
+  { t with notBefore := floorSec t.notBefore, notAfter := floorSec t.notAfter, issuer := issuer, signature := [] }
+
 /-- `SignWith(signer, curve, sp)`. -/
 def signWith (E : SignEnv) (signer : Option Cert) (keyCurve : Nat) (t : Cert) : Except SignErr Cert :=
   if keyCurve ≠ t.curve then .error .keyCurveMismatch
@@ -45,7 +52,7 @@ def signWith (E : SignEnv) (signer : Option Cert) (keyCurve : Nat) (t : Cert) : 
     match issuer with
     | .error e => .error e
     | .ok iss =>
-      match validateVersion { t with issuer := iss, signature := [] } with
+      match validateVersion (fromTBS t iss) with
       | none => .error .unknownVersion
       | some (.error e) => .error (.invalid e)
       | some (.ok c) =>
